@@ -201,6 +201,8 @@ pub struct World<C: MlsConfig> {
     pub rejected: Vec<Vec<u8>>,
     /// the group was re-initialised by a commit: the history ends
     pub ended: bool,
+    /// per member: (tree string, tree-hash cache entries) as of the previous commit, for the cache-coherence rows (C08)
+    pub hash_caches: BTreeMap<usize, (String, Vec<Vec<u8>>)>,
 }
 
 /// Abstract view of one tree node, numbers from `Stamps`.
@@ -391,6 +393,7 @@ pub fn new_world<C: MlsConfig>(log: SharedCryptoLog, scratch: &str) -> World<C> 
         psks: Default::default(),
         rejected: vec![],
         ended: false,
+        hash_caches: Default::default(),
     }
 }
 
